@@ -204,7 +204,9 @@ def st_letter_spec(max_size=94, min_size=1):
     small = st.lists(
         st.sampled_from(PRINTABLES), min_size=min_size, max_size=max(min_size, min(8, max_size)), unique=True
     ).map("".join)
-    big = st.tuples(st.integers(min_size, max_size), st.integers(0, 2**31)).map(lambda t: _perm_letters(*t))
+    big = st.tuples(st.integers(0, 255), st.integers(0, 255)).map(
+        lambda t: _perm_letters(min_size + (t[0] + 5) % (max_size - min_size + 1), t[1])
+    )
     fixed = st.sampled_from([f for f in _FIXED_LETTER if min_size <= len(f) <= max_size])
     return st.tuples(st.one_of(small, big, fixed), st.sampled_from(["str", "list", "bytes_list"])).map(
         lambda t: {"kind": "letter", "symbols": t[0], "ctor": t[1]}
@@ -239,19 +241,27 @@ def st_alphabet_spec(big=True):
     return st.one_of(*opts)
 
 
+def _expand_raws(min_size, max_size, v, block):
+    span = max_size - min_size + 1
+    # offset: the simplest draw (v == 0) is a typical length, not the shortest one
+    n = min_size + ((v + 13) % span if span > 13 else v % span)
+    if v % 8 == 7:
+        n = min(max_size, max(min_size, (v >> 3) % 4))  # one draw in eight: empty or very short
+    return [((block[i % 8] << 8 | block[(i + 3) % 8]) + i * (2 * block[(i + 1) % 8] + 1) * 40503) & 0xFFFF for i in range(n)]
+
+
 def st_raws(min_size=0, max_size=60):
     """A list of raw integers in 0..65535 (reduced modulo the alphabet size at interpretation
-    time).  Drawn as one byte string: a list of 60 separate integer draws is ~10x slower."""
-    return st.binary(min_size=2 * min_size, max_size=2 * max_size).map(
-        lambda b: [b[i] * 256 + b[i + 1] for i in range(0, len(b) - 1, 2)]
+    time), expanded from one length integer and one 8-byte block.  Cheaper than a list of
+    integer draws, the length is uniform, and the simplest draw (which Hypothesis' mutation
+    phase produces very often) is still a sequence of varying symbols."""
+    return st.tuples(st.integers(0, 255), st.binary(min_size=8, max_size=8)).map(
+        lambda t: _expand_raws(min_size, max_size, t[0], t[1])
     )
 
 
 def st_idx(tier, min_size=0):
-    hi = 60 if tier == "quick" else 200
-    return st.one_of(
-        st_raws(max(4, min_size), hi), st_raws(max(4, min_size), hi), st_raws(min_size, max(3, min_size))
-    )
+    return st_raws(min_size, 60 if tier == "quick" else 200)
 
 
 # --------------------------------------------------------------------------
@@ -386,7 +396,7 @@ def st_symbol_rejection(tier):
             "alph": st_alphabet_spec(),
             "idx": st_idx(tier),
             "pos": st.integers(0, 10**6),
-            "out_kind": st.sampled_from(["char", "char", "multi", "generic"]),
+            "out_kind": st.sampled_from(["multi", "char", "char"]),
             "out_raw": st.lists(st.integers(0, 10**6), min_size=3, max_size=3),
             "out_sym": st_gsym(),
         }
@@ -446,7 +456,7 @@ def run_symbol_rejection(case):
     cl = "symbol_outside_alphabet_raises_AlphabetError"
     if kind == "letter":
         ok = case["out_kind"]
-        if ok == "multi" or (ok == "generic" and False):
+        if ok == "multi":
             # several letters, made of letters of the alphabet itself
             m = 2 + raw[0] % 2
             out = "".join(syms[r % n] for r in (raw + raw)[:m])
@@ -728,17 +738,16 @@ def st_seq_ops(tier):
         st.tuples(st.just("invalid_probe"), ints, st.integers(0, 3)),
         st.tuples(st.just("iter")),
     )
-    kind = st.sampled_from(["nuc", "nuc", "prot", "gen_letter", "gen_generic"])
+    kind = st.sampled_from(["gen_generic", "nuc", "prot", "gen_letter", "gen_big", "nuc"])
     return st.fixed_dictionaries(
         {
             "kind": kind,
             "amb": st.sampled_from([None, True, False]),
             "pool": st.sampled_from(["unamb", "amb"]),
             "letter": st_letter_spec(),
-            "generic": st.one_of(st_generic_spec(), st_generic_spec(), st_range_spec(250, 300)),
-            "init": st.one_of(
-                st_raws(0, 3), st_raws(4, 40 if not big else 120), st_raws(4, 40 if not big else 120)
-            ),
+            "generic": st_generic_spec(),
+            "big": st_range_spec(250, 300),
+            "init": st_raws(0, 40 if not big else 120),
             "init_form": st.sampled_from(["str", "list", "tuple", "ndarray", "lower_str", "lower_list", "three", "bytes"]),
             "ops": st.lists(op, min_size=1, max_size=12 if not big else 30),
         }
@@ -758,6 +767,9 @@ class _SeqEnv:
             self.pool = list(PROT)
         elif self.kind == "gen_letter":
             self.alph_obj, self.pool = _mk_alphabet(case["letter"])
+        elif self.kind == "gen_big":
+            self.alph_obj, self.pool = _mk_alphabet(case["big"])
+            self.kind = "gen_generic"
         else:
             self.alph_obj, self.pool = _mk_alphabet(case["generic"])
         self.A = list(self.pool)
@@ -1198,7 +1210,10 @@ def st_table_spec():
         st.tuples(st.just("starts"), st.lists(codon, min_size=1, max_size=6)),
         st.tuples(st.just("map"), st.lists(st.tuples(codon, st.integers(0, len(PROT) + 1)), min_size=1, max_size=5)),
     )
-    return st.fixed_dictionaries({"base": base, "mods": st.lists(mod, max_size=3)})
+    plain_default = st.just({"base": ["default"], "mods": []})
+    return st.one_of(st.fixed_dictionaries({"base": base, "mods": st.lists(mod, max_size=3)}), plain_default).map(
+        lambda d: d if d["mods"] or d["base"][0] != "default" else {"base": ["default"], "mods": []}
+    )
 
 
 _AA_POOL = PROT + "**"
@@ -1245,7 +1260,7 @@ def st_translate(tier):
     return st.fixed_dictionaries(
         {
             "table": st_table_spec(),
-            "codons": st.lists(st.integers(0, 63), max_size=n),
+            "codons": st_raws(0, n).map(lambda rs: [r % 64 for r in rs]),
             "extra": st.integers(0, 2),
             "pass_none": st.booleans(),
         }
@@ -1314,20 +1329,23 @@ def model_orfs(dna, table, starts, met_start, start_may_stop=True):
     return sorted(out)
 
 
+def _orf_item(r):
+    kind, v = r % 8, r >> 3
+    if kind <= 3:
+        return ["c", v % 64]  # any codon
+    if kind <= 5:
+        return ["s", v]  # v-th start codon of the table
+    if kind == 6:
+        return ["x", v]  # v-th stop codon of the table
+    return ["n", v % 4]  # a single nucleotide: shifts the frame
+
+
 def st_orfs(tier):
     n = 30 if tier == "quick" else 120
-    raw = st.integers(0, 10**6)
-    item = st.one_of(
-        st.tuples(st.just("c"), st.integers(0, 63)),
-        st.tuples(st.just("c"), st.integers(0, 63)),
-        st.tuples(st.just("s"), raw),
-        st.tuples(st.just("x"), raw),
-        st.tuples(st.just("n"), st.integers(0, 3)),
-    )
     return st.fixed_dictionaries(
         {
             "table": st_table_spec(),
-            "items": st.lists(item, max_size=n),
+            "items": st_raws(0, n).map(lambda rs: [_orf_item(r) for r in rs]),
             "met_start": st.booleans(),
             "pass_none": st.booleans(),
         }
@@ -1451,8 +1469,8 @@ def st_kmer(tier):
     raw = st.integers(0, 10**6)
     hi = 60 if tier == "quick" else 300
     base_st = st.one_of(
-        st_letter_spec(min_size=3), st_letter_spec(min_size=3), st_generic_spec(min_size=3),
-        st_range_spec(3, 300), st_letter_spec(max_size=2), st_range_spec(1, 2),
+        st_generic_spec(min_size=3), st_letter_spec(min_size=3), st_range_spec(3, 300),
+        st_letter_spec(min_size=3), st_letter_spec(max_size=2), st_range_spec(1, 2),
     )  # fmt: skip
     bad_st = st.one_of(
         st.tuples(st.just("len"), st.integers(0, 3)),
@@ -1460,7 +1478,7 @@ def st_kmer(tier):
         st.tuples(st.just("len"), st.integers(1, 300)),
         st.tuples(st.just("neg"), st.integers(1, 3)),
     )
-    long_seq = st_raws(12, hi)
+    long_seq = st_raws(0, hi)
 
     def for_k(k):
         spacing = st.one_of(
@@ -1475,7 +1493,7 @@ def st_kmer(tier):
                 "base": base_st,
                 "k": st.just(k),
                 "sp": spacing,
-                "seq": st.one_of(long_seq, long_seq, st_raws(k, 14), st_raws(0, k + 1)),
+                "seq": st.one_of(long_seq, long_seq, st_raws(0, 14)),
                 "dtype": st.sampled_from(UINT_DTYPES),
                 "bad": bad_st,
                 "bad_window": raw,
